@@ -80,6 +80,10 @@ void ldb_free(void *ptr) {
 }
 
 /* --------------------------------------------------- construction models */
+/* every path name in this unit is the 2-character string the ldb_path_absolute model produces; a constant length keeps
+   ldb_create's memcpy(db->dbname, ..) from becoming a symbolic-size update of the whole handle object */
+size_t strlen(const char *s) { __CPROVER_assert(s[0] != 0 && s[1] != 0 && s[2] == 0, "strlen model: 2-character path"); return 2; }
+
 int ldb_crc32c_init(void) { return 1; }
 int ldb_path_absolute(char *buf, size_t size, const char *name) { OG.path_ok = nondet_int() ? 1 : 0; if (OG.path_ok) { buf[0] = '/'; buf[1] = 'd'; buf[2] = 0; } return OG.path_ok; }
 void ldb_ikc_init(ldb_comparator_t *ikc, const ldb_comparator_t *user_comparator) { ikc->user_comparator = user_comparator; }
